@@ -59,11 +59,8 @@ func (self ValueOption) Fields() (map[string]*Value, *Interrupt) {
 		}),
 		"unwrap": NewValueBuiltinFunction(func(executor Executor, cancelCtx *context.Context, span errors.Span, args ...Value) (*Value, *Interrupt) {
 			if !self.IsSome() {
-				return nil, NewRuntimeErr(
-					"Called 'unwrap' on a 'null' option value",
-					ValueErrorKind,
-					span,
-				)
+				// an exception which the program can catch (like on the VM, and like `obj~>key`)
+				return nil, NewThrowInterrupt(span, "Called 'unwrap' on a 'null' option value")
 			}
 			return self.Inner, nil
 		}),
